@@ -9,7 +9,8 @@ import libif
 from oracle import pauli, lc, groups, coupling
 from gen import members
 
-FORMATS_SIGNED = ["strings+sign", "strings-minimal", "matrices+phases", "matrices+phases-int64", "matrices+phases-bool"]
+FORMATS_SIGNED = ["strings+sign", "strings-minimal", "matrices+phases", "matrices+phases-int64", "matrices+phases-bool",
+                  "matrices+phases-uint8", "matrices+phases-fortran", "matrices+phases-view-readonly"]
 FORMATS_PLUS = ["strings-nosign", "matrices-nophase", "matrices-nophase-int64"]
 
 
@@ -31,9 +32,18 @@ def make_stabilizer(n, gens, fmt, graph_gid=None, validate=False):
     if fmt == "strings-nosign":
         return L.Stabilizer(libif.paulis_to_strings(gens, n, "never"), validate=validate)
     if fmt.startswith("matrices"):
-        dtype = np.int64 if fmt.endswith("int64") else (np.bool_ if fmt.endswith("bool") else np.int8)
+        dtype = np.int64 if fmt.endswith("int64") else (np.bool_ if fmt.endswith("bool") else (np.uint8 if fmt.endswith("uint8") else np.int8))
         R, S, ph = libif.paulis_to_matrices(gens, n, dtype=np.int8)
         R, S, ph = R.astype(dtype), S.astype(dtype), ph.astype(dtype)
+        if fmt.endswith("fortran"):          # column-major memory layout
+            R, S = np.asfortranarray(R), np.asfortranarray(S)
+        elif fmt.endswith("view-readonly"):  # non-contiguous read-only views into larger arrays (e.g. slices of a table of many stabilizers)
+            big = np.zeros((3, 2 * n + 1, 2 * n + 1), dtype=dtype)
+            big[0, 1:2 * n:2, 0:2 * n:2] = R
+            big[1, 1:2 * n:2, 0:2 * n:2] = S
+            big[2, 0, 1:2 * n:2] = ph
+            big.setflags(write=False)
+            R, S, ph = big[0, 1:2 * n:2, 0:2 * n:2], big[1, 1:2 * n:2, 0:2 * n:2], big[2, 0, 1:2 * n:2]
         if "nophase" in fmt:
             return L.Stabilizer((R, S), validate=validate)
         return L.Stabilizer((R, S, ph), validate=validate)
